@@ -782,7 +782,7 @@ def p_c08(prop, tier):
     if tier == "quick":
         cells = [("default", "rel", "miri-sb", 4), ("default", "chk", "miri-sb", 2), ("alloc", "rel", "miri-sb", 2), ("nostd+compact", "rel", "miri-sb", 2), ("default", "rel", "miri-tb", 2), ("compact", "chk", "miri-tb", 2),
                  ("default", "rel", "miri-sb-i686", 2)]  # 32-bit target: the 32-bit-limb big-integer code
-        count = int(200 * sc)
+        count = int(150 * sc)
         asan = [("default", "rel", 2), ("alloc", "rel", 1)]
         asan_budget = 12
         vg = []
